@@ -177,6 +177,7 @@ class UnitW(Unit):
             ('self.rust_type == RustType::Ignore', 'bool', False),
             ('operation .output .as_ref() .map(|_| format!("{operation_name}OutputEnvelope"))', 'Option<String>', True),
             ('xmlns .iter() .map(|(k, v)| format!("\\"{k}\\" = \\"{v}\\"")) .collect::<Vec<String>>() .join(", ")', 'String', True),
+            ('xmlns .iter() .map(|(k, v)| format!("\\"{k}\\" = {v:?}")) .collect::<Vec<String>>() .join(", ")', 'String', True),
             ('&self.binding.operations', OPS, False),
             ('&self.operations', OPS, False),
             ('self .nodes .iter() .filter(|n| n.in_namespace.as_deref() == Some(namespace))', NODES, True),
@@ -198,6 +199,8 @@ class UnitW(Unit):
                 kw['foreach'].append(G.opaque(out, "comment.split('\\n').for_each(", "Vec<&'static str>"))
             elif "in comment.split('\\n')" in body:
                 kw['opaque'].append(G.opaque(out, "comment.split('\\n')", "Vec<&'static str>"))
+            elif "in comment.replace('\\r', \"\").split('\\n')" in body:
+                kw['opaque'].append(G.opaque(out, "comment.replace('\\r', \"\").split('\\n')", "Vec<&'static str>"))
             for m_ in re.finditer(r'const \w+: &(?!\s*\')', body):
                 kw['inserts'].append(STATIC(m_.group(0)))
             return kw
@@ -212,6 +215,7 @@ class UnitW(Unit):
         FILES = ['model/structures/restrictions.rs', 'model/helpers.rs', 'model/file_header.rs', 'model/field.rs', 'model/structures/writer.rs',
                  'model/node.rs', 'model/soap/service.rs', 'model/soap/binding/writer.rs', 'model/doc.rs']
         self.discovered = []
+        self.pure_helpers = []
         for rel in FILES:
             nested = rel == 'model/soap/binding/writer.rs'     # its signatures say `super::SoapOperation`
             items = [it for it in G.items(rel) if it.kind in ('fn', 'impl')]
@@ -224,6 +228,17 @@ class UnitW(Unit):
                     if fns:
                         plan.append(('impl', it, fns))
             specials = {id(fn): special(fn) for _, _, fns in plan for fn in fns}      # opaque declarations are emitted here, before the items
+            # pure helper functions of the same file that a writer calls (they never see the sink): kept as contract-free
+            # external functions, i.e. their result is unconstrained and their body is NOT verified here
+            bodies = ' '.join(fn.body for _, _, fns in plan for fn in fns)
+            for it in items:
+                if it.kind == 'fn' and it.open is not None and not is_sink_fn(it) and re.search(r'\b' + re.escape(it.name) + r'\s*\(', bodies) \
+                        and it.name not in self.pure_helpers and it.name != 'xml_name_to_rust_name':
+                    out.spec('    #[verifier::external_body]')
+                    out.chunks[-1].trusted = True
+                    out.code(it.src[it.toks[it.head_first].start:it.toks[it.open].start] + '{ unimplemented!() }\n', SRC + rel, it.line_of(it.toks[it.head_first].start))
+                    self.pure_helpers.append(it.name)
+                    out.dropped.append(f'body of pure helper fn {it.name} ({SRC + rel}): called by a writer, takes no sink; its result is unconstrained and its body is not verified here')
             if nested and plan:
                 out.spec('    pub mod binding_writer {\n        use super::*;\n        broadcast use crate::ax::display_ref;')
             for kind, it, fns in plan:
